@@ -592,6 +592,19 @@ def native_C15(tier, seed):
                                 fails.append({"id": f"C15-{how}-ns-{cls.__name__}-{sname}-{tname}-{spec}", "obligation": "target namespace", "what": f"{how}: namespace {t.xp.__name__}", "input": inp})
                             if cls is SMCSamples and how != "from_samples" and (t.beta != 0.4 or t.log_evidence is None or float(t.log_evidence) != 1.5):
                                 fails.append({"id": f"C15-{how}-smcfields-{sname}-{tname}-{spec}", "obligation": "beta carried", "what": f"{how}: beta={t.beta} log_evidence={t.log_evidence}", "input": inp})
+    # merging keeps the precision of the parts
+    for cls in (BaseSamples, Samples):
+        for sname, sxp, dts in NS:
+            for dtn, d in dts.items():
+                cases += 1
+                parts = [cls(rng.normal(size=(3, 2)), log_q=rng.normal(size=3), xp=sxp, dtype=d, parameters=["a", "b"]) for _ in range(3)]
+                try:
+                    j = cls.concatenate(parts)
+                    if _width(j.x.dtype) != _width(dtn) or _width(j.dtype) != _width(dtn):
+                        fails.append({"id": f"C15-concat-width-{cls.__name__}-{sname}-{dtn}", "obligation": "merged set is built with the dtype of the parts", "what": f"concatenate: parts {dtn}, merged x {j.x.dtype}, dtype {j.dtype}", "input": {"class": cls.__name__, "ns": sname, "dtype": dtn}})
+                    j2 = cls.concatenate([j, parts[0]])
+                except Exception as e:  # noqa: BLE001
+                    fails.append({"id": f"C15-concat-raise-{cls.__name__}-{sname}-{dtn}", "obligation": "merged set is built with the dtype of the parts", "what": f"concatenate of {dtn} parts: {type(e).__name__}: {e}", "input": {"class": cls.__name__, "ns": sname, "dtype": dtn}})
     # proposal outputs consumed in any sample namespace
     from aspire.flows.torch.flows import ZukoFlow
     zf = ZukoFlow(dims=2, hidden_features=[8], transforms=1)
